@@ -140,11 +140,29 @@ func (w *World) expandCtx(name string, ctxs map[string]*CtxInfo) []string {
 }
 
 type queryFn struct {
-	kind  string // "left" | "right"
-	param int    // index of the token parameter (receiver included)
+	kind      string // "left" | "right"; "" when the side is whatever the function value bound to parameter kindParam asks
+	param     int    // index of the token parameter (receiver included)
+	kindParam int    // index of the function-typed parameter that is the query (-1: the side is fixed)
 }
 
-// commentQueryFns: the formatter methods that query the hidden channel around a token parameter, and their wrappers.
+// kindsAt: the side(s) asked when a function with summary q is called with args from caller: fixed, read off the function value
+// handed in for the query parameter, or - when the caller only hands on a parameter of its own - the index of that parameter (pass).
+func (q queryFn) kindsAt(caller *ssa.Function, args []ssa.Value) (kinds []string, pass int) {
+	if q.kindParam < 0 {
+		return []string{q.kind}, -1
+	}
+	if q.kindParam >= len(args) {
+		return nil, -1
+	}
+	if i := paramIndexOf(caller, args[q.kindParam]); i >= 0 {
+		return nil, i
+	}
+	return hiddenQueryKindsOfValue(args[q.kindParam]), -1
+}
+
+// commentQueryFns: the formatter methods that query the hidden channel around a token parameter, and their wrappers. The query may
+// be a method call on the token stream or a call of a function value that can only be such a query; when that value is a parameter
+// of the function, the side is decided where the function is called (kindParam).
 func commentQueryFns(w *World) map[*ssa.Function][]queryFn {
 	out := map[*ssa.Function][]queryFn{}
 	has := func(fn *ssa.Function, q queryFn) bool {
@@ -160,29 +178,28 @@ func commentQueryFns(w *World) map[*ssa.Function][]queryFn {
 	for _, fn := range fns {
 		forEachInstr(fn, func(b *ssa.BasicBlock, ins ssa.Instruction) {
 			c, ok := ins.(ssa.CallInstruction)
-			if !ok || c.Common().StaticCallee() == nil {
+			if !ok {
 				return
 			}
-			name := c.Common().StaticCallee().Name()
-			if name != "GetHiddenTokensToLeft" && name != "GetHiddenTokensToRight" {
+			kinds := hiddenQueryAt(c)
+			kp := -1
+			if len(kinds) == 0 {
 				return
+			}
+			if i := calledParam(fn, c); i >= 0 {
+				kinds, kp = []string{""}, i
 			}
 			// the index argument is token.GetTokenIndex() of a parameter
-			if len(c.Common().Args) < 2 {
-				return
-			}
-			idx, ok := c.Common().Args[1].(*ssa.Call)
-			if !ok || !idx.Call.IsInvoke() || idx.Call.Method.Name() != "GetTokenIndex" {
+			anchor := hiddenQueryAnchor(c)
+			if anchor == nil {
 				return
 			}
 			for i, p := range fn.Params {
-				if idx.Call.Value == ssa.Value(p) && isToken(p.Type()) {
-					k := "left"
-					if name == "GetHiddenTokensToRight" {
-						k = "right"
-					}
-					if !has(fn, queryFn{k, i}) {
-						out[fn] = append(out[fn], queryFn{k, i})
+				if stripIdentity(anchor) == ssa.Value(p) && isToken(p.Type()) {
+					for _, k := range kinds {
+						if !has(fn, queryFn{k, i, kp}) {
+							out[fn] = append(out[fn], queryFn{k, i, kp})
+						}
 					}
 				}
 			}
@@ -206,10 +223,19 @@ func commentQueryFns(w *World) map[*ssa.Function][]queryFn {
 						continue
 					}
 					a := stripIdentity(c.Common().Args[q.param])
+					kinds, pass := q.kindsAt(fn, c.Common().Args)
+					if pass >= 0 {
+						kinds = []string{""}
+					}
 					for i, p := range fn.Params {
-						if a == ssa.Value(p) && isToken(p.Type()) && !has(fn, queryFn{q.kind, i}) {
-							out[fn] = append(out[fn], queryFn{q.kind, i})
-							changed = true
+						if a != ssa.Value(p) || !isToken(p.Type()) {
+							continue
+						}
+						for _, k := range kinds {
+							if !has(fn, queryFn{k, i, pass}) {
+								out[fn] = append(out[fn], queryFn{k, i, pass})
+								changed = true
+							}
 						}
 					}
 				}
@@ -351,7 +377,12 @@ func collectFmtFacts(w *World, ctxs map[string]*CtxInfo) *fmtFacts {
 					if _, isParam := stripIdentity(cc.Args[q.param]).(*ssa.Parameter); isParam && len(queryFns[fn]) > 0 {
 						continue // inside a wrapper: the anchor is decided at the wrapper's call sites
 					}
-					qkind := q.kind
+					// which side is asked here: fixed by the callee, or by the query value handed to it at this very call
+					qkinds, _ := q.kindsAt(fn, cc.Args)
+					if len(qkinds) != 1 {
+						continue // side unknown at this site (or decided further up, at the callers of fn): no anchor fact
+					}
+					qkind := qkinds[0]
 					arg := stripIdentity(cc.Args[q.param])
 					tokCall, isCall := arg.(*ssa.Call)
 					which := ""
@@ -661,7 +692,7 @@ func runC09(w *World, r *Report) {
 	}
 	for _, x := range fqs {
 		f, q := x.f, x.q
-		if q.kind != "right" {
+		if q.kind != "right" && q.kindParam < 0 {
 			continue
 		}
 		var isRestricted func(f *ssa.Function, depth int) bool
@@ -678,9 +709,28 @@ func runC09(w *World, r *Report) {
 					}
 					if callee := c.Call.StaticCallee(); callee != nil && callee != f && depth < 4 {
 						for _, cq := range qf[callee] {
-							if cq.kind == "right" {
+							right := cq.kind == "right"
+							if cq.kindParam >= 0 {
+								// the side is what this call hands in (or what f itself was handed: may be the right side)
+								ks, pass := cq.kindsAt(g, c.Call.Args)
+								right = pass >= 0
+								for _, k := range ks {
+									if k == "right" {
+										right = true
+									}
+								}
+							}
+							if right {
 								viaAny = true
-								if !isRestricted(callee, depth+1) {
+								// the restriction may sit in the callee, or in a predicate this call hands to it (a filter the
+								// callee applies to each hidden token: `scan(side, tok, onLineOf(tok))`)
+								handsLineTest := false
+								for _, a := range c.Call.Args {
+									if funcValueReadsLine(a) {
+										handsLineTest = true
+									}
+								}
+								if !handsLineTest && !isRestricted(callee, depth+1) {
 									viaAll = false
 								}
 							}
@@ -697,6 +747,23 @@ func runC09(w *World, r *Report) {
 			for _, e := range n.In {
 				if e.Site == nil || e.Caller.Func.Synthetic != "" || q.param >= len(e.Site.Common().Args) {
 					continue
+				}
+				if q.kindParam >= 0 {
+					// asked through a query value handed in at this call: it must be the right-hand query, and no line filter
+					// may be handed in with it
+					ks, _ := q.kindsAt(e.Caller.Func, e.Site.Common().Args)
+					if len(ks) != 1 || ks[0] != "right" {
+						continue
+					}
+					filtered := false
+					for _, a := range e.Site.Common().Args {
+						if funcValueReadsLine(a) {
+							filtered = true
+						}
+					}
+					if filtered {
+						continue
+					}
 				}
 				if tc, ok := stripIdentity(e.Site.Common().Args[q.param]).(*ssa.Call); ok {
 					var trecv ssa.Value
@@ -849,8 +916,12 @@ func runC10(w *World, r *Report) {
 				}
 			case name == "GetTokenIndex":
 				for _, ref := range *call.Referrers() {
+					// a hidden-channel query: the method call, or a call of a function value that can only be one of the two queries
 					c2, isC := ref.(ssa.CallInstruction)
-					if !isC || c2.Common().StaticCallee() == nil || !strings.HasPrefix(c2.Common().StaticCallee().Name(), "GetHiddenTokensTo") {
+					if _, dbg := ref.(*ssa.DebugRef); dbg {
+						continue
+					}
+					if !isC || !isHiddenQueryCall(c2) {
 						bad = append(bad, "GetTokenIndex() used other than as the argument of a hidden-channel query at "+w.instrPos(ins))
 					}
 				}
@@ -955,20 +1026,24 @@ func runC10(w *World, r *Report) {
 
 	// ---- emit-once ----
 	const ruleOnce = "C10/emit-once"
+	// readers are counted per (function, side asked): one scanner that is handed the left or the right query by its callers reads
+	// both sides, like two functions that each ask one
 	nq := 0
 	for _, fn := range fns {
 		queries := false
+		sides := map[string]bool{}
 		forEachInstr(fn, func(b *ssa.BasicBlock, ins ssa.Instruction) {
 			if c, ok := ins.(ssa.CallInstruction); ok {
-				if f := c.Common().StaticCallee(); f != nil && strings.HasPrefix(f.Name(), "GetHiddenTokensTo") {
+				for _, k := range hiddenQueryAt(c) {
 					queries = true
+					sides[k] = true
 				}
 			}
 		})
 		if !queries {
 			continue
 		}
-		nq++
+		nq += len(sides)
 		// every WriteString of a hidden token's text must be dominated by the miss edge of a seen-set lookup keyed by that token, and the insert must be on the same path
 		tests := membershipTests(fn)
 		forEachInstr(fn, func(b *ssa.BasicBlock, ins ssa.Instruction) {
@@ -996,6 +1071,21 @@ func runC10(w *World, r *Report) {
 					}
 				})
 			}
+			// the seen set as a type with a test-and-set method (`if !seen.claim(t) { continue }`): the edge on which the helper
+			// reported "new" is the miss edge of its lookup, and the helper has inserted the token on it
+			forEachInstr(fn, func(b2 *ssa.BasicBlock, i2 ssa.Instruction) {
+				c2, ok := i2.(*ssa.Call)
+				if !ok || c2.Call.IsInvoke() {
+					return
+				}
+				m, k, newSucc, ok := testAndSetEdge(c2)
+				if !ok || !sameValue(k, tok) || !isTokenKeyedMap(m.Type()) {
+					return
+				}
+				if edgeDominates(b2, newSucc, b) {
+					guarded, marked = true, true
+				}
+			})
 			switch {
 			case !guarded:
 				r.fail(ruleOnce, key, w.instrPos(ins), "comment text is written without a dominating not-yet-emitted test on the seen set: a comment reachable from two anchors is printed twice (and again on every further pass)")
@@ -1007,7 +1097,7 @@ func runC10(w *World, r *Report) {
 		})
 	}
 	if nq < 2 {
-		r.fail(ruleOnce, "hidden-channel readers found", "", fmt.Sprintf("expected 2 functions querying the hidden channel, found %d", nq))
+		r.fail(ruleOnce, "hidden-channel readers found", "", fmt.Sprintf("expected 2 readers of the hidden channel (functions x side asked), found %d", nq))
 	}
 	r.assume("ANTLR's lexer maps equal character sequences to equal token sequences; hidden-channel queries return the comments adjacent to a token")
 }
@@ -1197,17 +1287,33 @@ func c10SameLineAnchor(w *World, r *Report, fns []*ssa.Function) {
 		var anchors []ssa.Value
 		forEachInstr(fn, func(b *ssa.BasicBlock, ins ssa.Instruction) {
 			c, ok := ins.(ssa.CallInstruction)
-			if !ok || c.Common().StaticCallee() == nil {
+			if !ok {
 				return
 			}
-			f := c.Common().StaticCallee()
-			if f.Name() == "GetHiddenTokensToRight" && len(c.Common().Args) > 1 {
-				if idx, ok := c.Common().Args[1].(*ssa.Call); ok && idx.Call.IsInvoke() && idx.Call.Method.Name() == "GetTokenIndex" {
-					anchors = append(anchors, idx.Call.Value)
+			// the query itself (method call, or a function value that may be the right-hand query)
+			for _, k := range hiddenQueryAt(c) {
+				if a := hiddenQueryAnchor(c); k == "right" && a != nil {
+					anchors = append(anchors, a)
 				}
 			}
+			f := c.Common().StaticCallee()
+			if f == nil {
+				return
+			}
 			for _, q := range qf[f] {
-				if q.kind == "right" && q.param < len(c.Common().Args) {
+				if q.param >= len(c.Common().Args) {
+					continue
+				}
+				// a helper that queries around its token parameter: on the right side by itself, or because this call hands it the
+				// right-hand query (or hands on whatever fn was handed)
+				ks, pass := q.kindsAt(fn, c.Common().Args)
+				right := pass >= 0
+				for _, k := range ks {
+					if k == "right" {
+						right = true
+					}
+				}
+				if right {
 					anchors = append(anchors, c.Common().Args[q.param])
 				}
 			}
